@@ -250,7 +250,9 @@ let () =
                          if ok && lm then found := Some (here :: outs)
                          else begin
                            (* prefer: longest accepted continuation, then a matching listing *)
-                           let score = (List.length (List.filter (fun o -> String.length o > 2 && String.sub o 0 3 = "ok:") outs)) * 2 + (if lm then 1 else 0) in
+                           (* a continuation that leaves the model (reason 107) is reported rather than a guess that is rejected *)
+                           let leaves = List.exists (fun o -> try ignore (Str.search_forward (Str.regexp_string ":107:") o 0); true with Not_found -> false) outs in
+                           let score = (if leaves then 1000 else 0) + (List.length (List.filter (fun o -> String.length o > 2 && String.sub o 0 3 = "ok:") outs)) * 2 + (if lm then 1 else 0) in
                            match !best with
                            | Some (sc, _) when sc >= score -> ()
                            | _ -> best := Some (score, here :: outs)
